@@ -13,8 +13,12 @@ MANIFEST = {
                 "on other emitters, with other arguments - and destroy or re-create listeners/emitters, their own included, arbitrarily "
                 "nested), all numbers of objects and every fuel of the evaluator, about the Lean model of Callback.cpp: emit_refines (log "
                 "= log of the snapshot specification: slot invocations with the arguments received and the start/return of every emit "
-                "call), args_forwarded (every slot receives exactly the argument given to the emit call that invokes it; every emit call "
-                "returns once), no_use_after_free, no_dangling (an audit of pointer validity - activation chain, receivers, emitter keys - "
+                "call), invocation_order_is_connection_order (in every reachable state the live list, the rest of a running emission and "
+                "the next invocation are in connection order, oldest first; a disconnect + connect makes the youngest connection), "
+                "args_forwarded (every slot receives exactly the argument given to the emit call that invokes it; every emit call "
+                "returns once) and args_forwarded_ref (reference parameter types: each slot sees what the previous slot of the "
+                "emission left in the caller's object), stale_mentions_are_dead_data (a destroyed object is mentioned only where "
+                "nothing matches or follows it), no_use_after_free, no_dangling (an audit of pointer validity - activation chain, receivers, emitter keys - "
                 "and of the multiset equality of the two sides, evaluated before every primitive step at any nesting depth, never fails; "
                 "every activation is destroyed as the innermost one, exactly once), never_after_disconnect_or_destroy (state level) and "
                 "never_invoked_unless_listed (whole runs), bookkeeping_consistent and two_sides_inverse (after every top-level call), "
@@ -32,9 +36,14 @@ MANIFEST = {
                 "signal data is inert and pushes no frame, the identity (address) of a List node is a number from an allocation counter "
                 "(theorem node_is_ghost: it influences nothing); one model of `emit`/`connect`/`disconnect` stands for the nine arity "
                 "overloads (all nine are instantiated and run by the harness: signal g has g parameters), one number stands for the "
-                "argument tuple (the harness passes v..v+g-1 and checks the tuple in the slot), arguments are by value: parameter "
-                "types that are references are NOT modelled (line `refargs`, tie only), nor is the unchecked cast through which emit "
-                "calls a slot of another class (exercised with a padding base class, receiver address != object address). "
+                "argument tuple (the harness passes v..v+g-1 and checks the tuple in the slot); reference parameters are modelled "
+                "as one cell per emission (signal 9 of the harness: `int&`; `const int&` and `int*` only by the fixed `refargs` line); "
+                "a model that RE-USES object ids is not built (OPEN block in Props.lean; stale_mentions_are_dead_data is the proved "
+                "part, exact address reuse is exercised on the real code by the `reuse` lines); assumed, not proved: the result of "
+                "~Listener / ~Emitter does not depend on the order in which the Map keys (emitter addresses / member-pointer bytes) "
+                "are visited, and member-function pointers of distinct signals/slots have distinct equal-size representations on "
+                "which == and memcmp agree (non-virtual members, no identical-code folding); not modelled: the unchecked cast "
+                "through which emit calls a slot of another class (exercised with a padding base class, receiver address != object address). "
                 "The audit of no_dangling is decided classically (the audited model is not executable; it is a proof device). "
                 "Emitter/Listener cannot be copied (compiler probe on every run). Single-threaded use. Slot bodies are finite scripts "
                 "indexed by (listener, slot, invocation number). Accesses to a List item after `List::remove` are invisible to ASan "
@@ -841,7 +850,7 @@ def copy_rejected(ctx):
 def check(ctx):
     ctx.assumptions += [
         "single-threaded use of Callback (the class has no synchronisation)",
-        "a new object is a new id in the model even when it gets the address of a destroyed object (exercised: after a `reuse` line the harness constructs objects in place, a re-created object has exactly the address of its predecessor)", "emit arguments are passed by value (reference parameter types are only exercised by the `refargs` line)",
+        "a new object is a new id in the model even when it gets the address of a destroyed object (exercised: after a `reuse` line the harness constructs objects in place, a re-created object has exactly the address of its predecessor)", "the destructors' result is independent of the order of the Map keys; member-function pointers of distinct signals/slots are distinct, of equal size, and == agrees with memcmp (non-virtual members, no identical-code folding)",
         "slot bodies are deterministic scripts of connect/disconnect/emit/delete actions; allocation never fails",
     ]
     proof_ok = C.proof_stage(ctx, PROPS, [DRIVER], leanchecker=(ctx.tier == "thorough"))
